@@ -138,7 +138,7 @@ Definition ucal_of_cal (c : cal) : ucal := mkUCal [c] None.
 
 (* PartialEq :224-270: all of 1970-01-01 .. 2200-12-31 *)
 Definition d1970 : Z := 0.
-Definition d2200 : Z := 84368.
+Definition d2200 : Z := 84370.   (* = days_from_civil 2200 12 31, pinned in Props/C06.v *)
 Definition dr_eq (bus1 settle1 bus2 settle2 : Z -> bool) : bool :=
   forallb (fun d => Bool.eqb (bus1 d) (bus2 d) && Bool.eqb (settle1 d) (settle2 d))
           (cal_date_range d1970 d2200).
